@@ -436,6 +436,10 @@ func genDeletion(t *rapid.T, h *history, batch int) (string, []string, *ref.DelW
 				mult = 1
 			}
 			idx = new(big.Int).Add(new(big.Int).SetUint64(base), new(big.Int).Lsh(new(big.Int).SetUint64(mult), uint(depth+1)))
+			if rapid.IntRange(0, 4).Draw(t, "al_2^32") == 0 {
+				// consistent for a circuit that only looks at the low 32 bits (expressible at the witness level only)
+				idx = new(big.Int).Add(new(big.Int).SetUint64(base), ref.Pow2(32))
+			}
 			if base <= last {
 				item, path = work.Get(base), work.Path(base)
 				work.Set(base, big.NewInt(0)) // the batch is consistent for a circuit that ignores the high bits
